@@ -3277,18 +3277,22 @@ impl Fsm {
         l
     }
 
-    pub fn schedule<F>(&self, delay_ms: i64, mut cb: F) -> Option<Guard>
+    /// Schedules "cb" to be called after "delay_ms" milliseconds (at once if the delay is not positive).\
+    /// Returns an error if the delay leads to a date that can't be represented, nothing is scheduled then.
+    pub fn schedule<F>(&self, delay_ms: i64, mut cb: F) -> Result<Option<Guard>, String>
     where
         F: 'static + FnMut() + Send,
     {
         if delay_ms > 0 {
-            Some(
-                self.timer
-                    .schedule_with_delay(chrono::Duration::milliseconds(delay_ms), cb),
-            )
+            let date = chrono::Duration::try_milliseconds(delay_ms)
+                .and_then(|delay| chrono::Utc::now().checked_add_signed(delay));
+            match date {
+                Some(date) => Ok(Some(self.timer.schedule_with_date(date, cb))),
+                None => Err(format!("delay of {} ms is too large", delay_ms)),
+            }
         } else {
             cb();
-            None
+            Ok(None)
         }
     }
 
